@@ -6,7 +6,7 @@ import Verif.Lemmas.MptCodec
 import Verif.Model.MptPartial
 import Verif.Lemmas.MptWF
 namespace Verif.Partial
-open Verif.Mpt (Bytes Nib Node key nibChar WFn)
+open Verif.Mpt (Bytes Nib Node key nibChar WFn splitCommon lookup)
 open Verif.Codec
 
 
@@ -447,6 +447,100 @@ theorem unfolds_of_resolves (H : Bytes → Bytes) (hH : ∀ b, (H b).length = 32
     have hd := decode_encode _ (reprOf_wf H hH (.ext o ep c) pre)
     simp only [reprOf] at hd hg
     exact .ext _ _ _ _ _ _ _ hg hd (ih (pre ++ ep) hw.2.2 (resolves_child_ext H get o ep c pre h))
+
+
+
+/-! ### Lookups in the unfolding of a complete store -/
+
+theorem nibChar_injective : ∀ a b : Nib, nibChar a = nibChar b → a = b := by decide
+
+theorem map_nibChar_inj (p q : List Nib) : p.map nibChar = q.map nibChar ↔ p = q := by
+  constructor
+  · intro h
+    induction p generalizing q with
+    | nil => cases q <;> simp_all
+    | cons a p ih =>
+      cases q with
+      | nil => simp at h
+      | cons b q =>
+        simp only [List.map_cons, List.cons.injEq] at h
+        rw [nibChar_injective a b h.1, ih q h.2]
+  · intro h; rw [h]
+
+theorem nibOf_nibChar : ∀ x : Nib, nibOf (nibChar x) = some x := by decide
+
+theorem toP_isEmpty (t : Node) : (toP t).isEmpty = t.isEmpty := by cases t <;> rfl
+
+/-- `splitCommon` vs `matchLen` on the character paths -/
+theorem splitCommon_matchLen (p q : List Nib) :
+    matchLen (p.map nibChar) (q.map nibChar) = (splitCommon p q).1.length ∧
+    p = (splitCommon p q).1 ++ (splitCommon p q).2.1 ∧ q = (splitCommon p q).1 ++ (splitCommon p q).2.2 := by
+  induction p generalizing q with
+  | nil => cases q <;> simp [splitCommon, matchLen]
+  | cons a p ih =>
+    cases q with
+    | nil => simp [splitCommon, matchLen]
+    | cons b q =>
+      by_cases hab : a = b
+      · subst hab
+        obtain ⟨h1, h2, h3⟩ := ih q
+        simp only [splitCommon, List.map_cons, matchLen, if_true, List.length_cons, List.cons_append]
+        exact ⟨by rw [h1], by rw [← h2], by rw [← h3]⟩
+      · have hc : nibChar a ≠ nibChar b := fun h => hab (nibChar_injective a b h)
+        simp [splitCommon, matchLen, hab, hc]
+
+def ofOpt : Option Bytes → LRes
+  | some b => .ok b
+  | none => .notPresent
+
+theorem valRes_ifEmpty (lv : Bytes) : valRes (if lv = [] then none else some lv) = ofOpt (if lv = [] then none else some lv) := by
+  by_cases h : lv = [] <;> simp [h, valRes, ofOpt]
+
+/-- lookups in the unfolding of a complete store are the lookups of the structural trie -/
+theorem lookupP_toP (t : Node) (p : List Nib) : lookupP (toP t) (p.map nibChar) = ofOpt (lookup t p) := by
+  induction t generalizing p with
+  | empty => simp [toP, lookupP, lookup, ofOpt]
+  | leaf o lp lv =>
+    simp only [toP, lookupP, lookup, map_nibChar_inj]
+    by_cases h : p = lp
+    · subst h; simp only [if_true]; exact valRes_ifEmpty lv
+    · have h' : ¬ lp = p := fun e => h e.symm
+      simp [h, h', ofOpt]
+  | full o ch val ih =>
+    cases p with
+    | nil =>
+      simp only [toP, List.map_nil, lookupP, lookup]
+      cases val with
+      | none => simp [valRes, ofOpt]
+      | some b => by_cases hb : b = [] <;> simp [hb, valRes, ofOpt]
+    | cons x pr =>
+      simp only [toP, List.map_cons, lookupP, lookup, nibOf_nibChar, toP_isEmpty]
+      by_cases he : (ch x).isEmpty = true
+      · cases hc : ch x <;> simp_all [Node.isEmpty, lookup, ofOpt]
+      · simp only [he]
+        exact ih x pr
+  | ext o ep c ih =>
+    obtain ⟨h1, h2, h3⟩ := splitCommon_matchLen p ep
+    simp only [toP, lookupP, lookup, h1, List.length_map]
+    rcases hs : splitCommon p ep with ⟨cm, p', e'⟩
+    rw [hs] at h1 h2 h3
+    simp only at h1 h2 h3 ⊢
+    cases e' with
+    | nil =>
+      simp only [List.append_nil] at h3
+      subst h3
+      by_cases hep : ep = []
+      · subst hep; simp [ofOpt]
+      · have h0 : ¬ (ep.length = 0) := by simpa using hep
+        simp only [h0, if_false, if_true, hep]
+        rw [← ih p']
+        congr 1
+        rw [h2]
+        simp
+    | cons y e'' =>
+      have hlen : cm.length < ep.length := by rw [h3]; simp
+      have hne : ¬ (cm.length = ep.length) := by omega
+      by_cases h0 : cm.length = 0 <;> simp [h0, hne, ofOpt]
 
 
 end Verif.Partial
